@@ -36,7 +36,7 @@ Endpoint == Dialer \cup Listener
 VARIABLES
   opt,         \* dialer options (mutable in the code through SetOption; constant in a scenario)
   now,         \* virtual time
-  sockClosed,  \* socket.closed
+  sockClosed,  \* progress of socket.Close: "open" | "eps" (closed set, endpoints being closed) | "proto" (protocol closed) | "done" (CloseAll issued)
   pst,         \* progress of the addPipe call owning p
   owner,       \* creating endpoint
   added, closing, closeStarted, tranOpen,   \* pipe.added / closing / closeOnce / transport open
@@ -67,7 +67,7 @@ Asynch(d) == opt[d].asynch
 Init ==
   /\ opt = InitOpt
   /\ now = 0
-  /\ sockClosed = FALSE
+  /\ sockClosed = "open"
   /\ pst = [p \in Pipe |-> "unborn"]
   /\ owner = [p \in Pipe |-> NULL]
   /\ added = [p \in Pipe |-> FALSE]
@@ -401,16 +401,51 @@ ServeStop(l) ==
   /\ UNCHANGED <<now, sockClosed, pipeVars, async, timers, dialVars, lClosed, lActive, histVars>>
 
 -----------------------------------------------------------------------------
-(* socket.Close: listeners, dialers, protocol, then every listed pipe *)
+(* socket.Close: listeners, dialers, protocol, then every listed pipe.       *)
+(* SockClose is the whole call as one step: what the trace specification     *)
+(* uses (on the virtual transport no endpoint Close ever waits, and the       *)
+(* drivers issue nothing while Close runs).  The steps of the call follow     *)
+(* (SockCloseBegin ... SockCloseAll): NextFine / SpecFine interleave them     *)
+(* with everything else - a connection accepted, a dial completing, a hook    *)
+(* running while Close is half-way.                                           *)
 SockClose ==
-  /\ ~sockClosed
-  /\ sockClosed' = TRUE
+  /\ sockClosed = "open"
+  /\ sockClosed' = "done"
   /\ dClosed' = [d \in Dialer |-> TRUE]
   /\ timers' = {t \in timers : ~t.stored}
   /\ lClosed' = [l \in Listener |-> TRUE]
   /\ lst' = [l \in Listener |-> IF lst[l] = "accepting" THEN "stopped" ELSE lst[l]]
   /\ async' = async \cup {<<"close", p>> : p \in {q \in listed : ~closeStarted[q]}}
   /\ UNCHANGED <<now, pipeVars, dActive, reconn, dst, dRedial, dSync, lActive, histVars>>
+
+\* s.closed = true under the socket lock; the endpoint lists are taken
+SockCloseBegin ==
+  /\ sockClosed = "open"
+  /\ sockClosed' = "eps"
+  /\ UNCHANGED <<now, pipeVars, async, timers, dialVars, lisVars, histVars>>
+\* for _, l := range listeners { l.Close() }
+SockCloseL(l) ==
+  /\ sockClosed = "eps" /\ ~lClosed[l]
+  /\ ListenerCloseEff(l)
+  /\ UNCHANGED <<now, sockClosed, pipeVars, async, timers, dialVars, lActive, histVars>>
+\* for _, d := range dialers { d.Close() }   (after the listeners)
+SockCloseD(d) ==
+  /\ sockClosed = "eps" /\ (\A l \in Listener : lClosed[l]) /\ ~dClosed[d]
+  /\ DialerCloseEff(d)
+  /\ UNCHANGED <<now, sockClosed, pipeVars, async, dActive, reconn, dst, dRedial, dSync, lisVars, histVars>>
+\* s.proto.Close(): from here on the protocol refuses every pipe (ProtoVerdictOK)
+SockCloseProto ==
+  /\ sockClosed = "eps" /\ (\A l \in Listener : lClosed[l]) /\ (\A d \in Dialer : dClosed[d])
+  /\ sockClosed' = "proto"
+  /\ UNCHANGED <<now, pipeVars, async, timers, dialVars, lisVars, histVars>>
+\* s.pipes.CloseAll(): every pipe listed at this moment
+SockCloseAll ==
+  /\ sockClosed = "proto"
+  /\ sockClosed' = "done"
+  /\ async' = async \cup {<<"close", p>> : p \in {q \in listed : ~closeStarted[q]}}
+  /\ UNCHANGED <<now, pipeVars, timers, dialVars, lisVars, histVars>>
+\* the verdict of a protocol that has been closed
+ProtoVerdictOK(accept) == sockClosed \in {"proto", "done"} => ~accept
 
 RunClose(p) == <<"close", p>> \in async /\ CloseBegin(p)
 
@@ -432,6 +467,7 @@ CanInternal ==
        \/ <<"pconn", d>> \in async
        \/ \E p \in Pipe : <<"pclosed", d, p>> \in async
   \/ \E l \in Listener : lst[l] = "accepting" /\ lClosed[l]
+  \/ sockClosed \in {"eps", "proto"}      \* a Close that is half-way goes on
 
 \* environment / application steps for the exhaustive model (hooks just
 \* return; a hook that closes its pipe is HookClose below)
@@ -462,6 +498,31 @@ NextCore ==
 Next == NextCore /\ UNCHANGED opt
 
 Spec == Init /\ [][Next]_vars
+
+\* the same with socket.Close step by step and a closed protocol refusing
+NextFine ==
+  \/ \E p \in Pipe :
+       \/ HookAttaching(p) \/ HookAttachingRet(p) \/ HookAttached(p) \/ HookAttachedRet(p)
+       \/ \E a \in BOOLEAN : ProtoVerdictOK(a) /\ AddPipeCheck(p, a)
+       \/ CloseLocked(p) \/ RunDetached(p) \/ RunIdFree(p) \/ PeerDrop(p) \/ NoticeDrop(p)
+       \/ RunClose(p) \/ CloseNoop(p) \/ HookClose(p) \/ AppClose(p)
+  \/ \E d \in Dialer :
+       \/ \E r \in {"ok", "pending", "ErrAddrInUse", "ErrClosed"} : DialCall(d, r)
+       \/ RunRedial(d) \/ DialAbort(d) \/ DialBegin(d)
+       \/ \E p \in Pipe : DialOK(d, p) \/ RunPipeClosed(d, p)
+       \/ \E r2 \in 0..(IF MaxT(d) = 0 THEN MinT(d) ELSE MaxT(d)) : DialFail(d, r2)
+       \/ RunPipeConnected(d)
+       \/ \E r \in {"ok", "ErrClosed"} : DialerClose(d, r)
+       \/ SockCloseD(d)
+  \/ \E tm \in timers : Fire(tm)
+  \/ \E l \in Listener :
+       \/ \E te \in {"ok", "ErrAddrInUse"}, r \in {"ok", "ErrClosed", "ErrAddrInUse"} : ListenCall(l, te, r)
+       \/ \E p \in Pipe : Accept(l, p)
+       \/ \E r \in {"ok", "ErrClosed"} : ListenerClose(l, r)
+       \/ ServeStop(l)
+       \/ SockCloseL(l)
+  \/ SockCloseBegin \/ SockCloseProto \/ SockCloseAll
+SpecFine == Init /\ [][NextFine /\ UNCHANGED opt]_vars
 
 \* weak fairness on the library's own steps (not on the environment)
 Fairness ==
@@ -515,8 +576,13 @@ ListedHaveIds == listed \subseteq ids
 \* C10 (core part): once everything is closed and the deferred work has run, nothing remains
 AllQuiet == ~CanInternal /\ async = {} /\ \A d \in Dialer : dst[d] \in {"idle"}
 NothingRemains ==
-  (sockClosed /\ AllQuiet /\ timers = {} /\ \A p \in Pipe : pst[p] \in {"unborn", "live", "refused", "abandoned"} /\ (pst[p] # "unborn" => closeStarted[p]))
+  (sockClosed = "done" /\ AllQuiet /\ timers = {} /\ \A p \in Pipe : pst[p] \in {"unborn", "live", "refused", "abandoned"} /\ (pst[p] # "unborn" => closeStarted[p]))
      => (ids = {} /\ listed = {})
+
+\* C10 / C13: once Close has done its last step and nothing moves, no connection of the socket is left open -
+\* whatever was accepted, dialled or inside a hook while Close was under way (SpecFine; needs ProtoVerdictOK)
+AllClosedAtRest ==
+  (sockClosed = "done" /\ AllQuiet) => \A p \in Pipe : pst[p] # "unborn" => closeStarted[p]
 
 \* C14: no attempt after close: DialBegin is never taken when the dialer is closed
 NoAttemptAfterClose ==
@@ -549,6 +615,7 @@ SyncFailRetryable == \A d \in Dialer : (~Asynch(d) /\ dst[d] = "idle" /\ dialLog
 
 TypeOK ==
   /\ pst \in [Pipe -> PST]
+  /\ sockClosed \in {"open", "eps", "proto", "done"}
   /\ ids \subseteq Pipe /\ listed \subseteq Pipe
   /\ \A d \in Dialer : dst[d] \in {"idle", "want", "dialing", "adding"}
   /\ \A l \in Listener : lst[l] \in {"off", "accepting", "adding", "stopped"}
